@@ -99,6 +99,9 @@ def validate_dedup(rep, run, A, depth, cfg):
     full = [[]]
     ded = [[]]
     seen = set()
+    # cumulative: a state met again at a deeper level is pruned there, its successors were reached one level
+    # earlier -- so the sets compared are "reached within <= level ticks"
+    fcum, dcum, fkcum, dkcum = set(), set(), set(), set()
     for level in range(1, depth + 1):
         fj = [(h + [a], cfg) for h in full if not (h and terminal(h[-1])) for a in A]
         fr = core.pmap(run, fj)
@@ -112,9 +115,14 @@ def validate_dedup(rep, run, A, depth, cfg):
         if None in fs:
             rep.extra.setdefault("dedup_validation", []).append(dict(config=cfg.get("name"), level=level, skipped="canonical form unavailable"))
             return
+        fcum |= fs
+        dcum |= ds
+        fkcum |= fk
+        dkcum |= dk
+        fs, ds, fk, dk = fcum, dcum, fkcum, dkcum
         if fs != ds or fk != dk:
             raise core.HarnessError("canonical-state dedup is unsound at level %d of %s: %d states without dedup vs %d with; violation keys %d vs %d" % (level, cfg.get("name"), len(fs), len(ds), len(fk), len(dk)))
-        rep.extra.setdefault("dedup_validation", []).append(dict(config=cfg.get("name"), level=level, executions_without_dedup=len(fj), executions_with_dedup=len(dj), states=len(fs)))
+        rep.extra.setdefault("dedup_validation", []).append(dict(config=cfg.get("name"), level=level, executions_without_dedup=len(fj), executions_with_dedup=len(dj), states_within_level=len(fs)))
         full = [h for h, _ in fj]
         nxt = []
         for (h, _), r in zip(dj, dr):
